@@ -502,6 +502,20 @@ class Interp:
             raise Unsupported(e, "lambda")
         if isinstance(e, ast.Starred):
             raise Unsupported(e, "starred")
+        if isinstance(e, ast.DictComp) and len(e.generators) == 1:
+            # {k: v for x in it}: literal keys are kept, computed keys share the wildcard entry "*" (as for computed-key stores)
+            g = e.generators[0]
+            elems = d.iter_elems(self.expr(g.iter, env), e)
+            out = {}
+            for el in (elems if isinstance(elems, list) else [elems]):
+                e1 = Env(env); e1.module = env.module
+                self.assign(g.target, el, e1, e)
+                if any(d.truth(self.expr(c, e1)) is False for c in g.ifs):
+                    continue
+                kk, vv = self.expr(e.key, e1), self.expr(e.value, e1)
+                key = kk.value if isinstance(kk, Const) and isinstance(elems, list) else "*"
+                out[key] = vv if key not in out else d.join(out[key], vv, e)
+            return Const(out)
         if isinstance(e, ast.Dict):
             out = {}
             for k, v in zip(e.keys, e.values):
